@@ -113,10 +113,16 @@ def parseScen (line : String) : Option Scen :=
   | _ => none
 
 /-! rendering (must agree character by character with harness/cmd/c07) -/
+/-- handler error kinds of the harness (harness/cmd/c07: errLabel); the model treats every handler error as opaque -/
 def showErr : Err → String
-  | .nil => "nil" | .de => "DE" | .discard => "DISC" | .h c => s!"E{c}"
+  | .nil => "nil" | .de => "DE" | .discard => "DISC"
+  | .h 101 => "W101(DE)" | .h 102 => "CANCELED" | .h 103 => "DE" | .h 104 => "W104(CANCELED)" | .h 105 => "ISDE105"
+  | .h c => s!"E{c}"
 
-def showPair (p : Val × Err) : String := s!"{p.1}:{showErr p.2}"
+/-- value code 900001 = a typed nil inside the interface -/
+def showVal (v : Val) : String := if v = 900001 then "TN" else toString v
+
+def showPair (p : Val × Err) : String := s!"{showVal p.1}:{showErr p.2}"
 
 def insertBy {α : Type} (key : α → Nat) (x : α) : List α → List α
   | [] => [x]
